@@ -7,8 +7,13 @@ pub mod adapt;
 pub mod c01;
 pub mod c02;
 pub mod c03;
+pub mod c05;
 pub mod c06;
 pub mod c07;
+pub mod c10;
+pub mod c11;
+pub mod c12;
+pub mod c13;
 
 #[derive(Debug, Clone, Copy, PartialEq, Eq)]
 pub enum Tier {
@@ -310,8 +315,13 @@ pub fn lean_checks() -> Vec<CheckDef> {
         CheckDef { name: "c01", run: c01::run, replay: c01::replay },
         CheckDef { name: "c02", run: c02::run, replay: c02::replay },
         CheckDef { name: "c03", run: c03::run, replay: c03::replay },
+        CheckDef { name: "c05", run: c05::run, replay: c05::replay },
         CheckDef { name: "c06", run: c06::run, replay: c06::replay },
         CheckDef { name: "c07", run: c07::run, replay: c07::replay },
+        CheckDef { name: "c10", run: c10::run, replay: c10::replay },
+        CheckDef { name: "c11", run: c11::run, replay: c11::replay },
+        CheckDef { name: "c12", run: c12::run, replay: c12::replay },
+        CheckDef { name: "c13", run: c13::run, replay: c13::replay },
     ]
 }
 
